@@ -109,35 +109,62 @@ Definition invocable (v : version) : bool :=
 Definition fails (v : version) : bool :=
   match vmig v with MFail _ => true | _ => false end.
 
-(** Without a failing entry: every non-nil entry is invoked, in list order. *)
-Lemma run_migs_ok l d :
+(** Without a failing entry: every non-nil entry is invoked, in list order
+    (whether or not errors are returned). *)
+Lemma run_migs_ok ret l w :
   existsb fails l = false ->
-  let '(inv, d', e) := run_migs l d in
+  let '(inv, w', e) := run_migs ret l w in
   e = None /\ inv = map num (filter invocable l).
 Proof.
-  revert d. induction l as [|v l IH]; intros d Hf; simpl; [auto|].
+  revert w. induction l as [|v l IH]; intros w Hf; simpl; [auto|].
   simpl in Hf. apply orb_false_iff in Hf. destruct Hf as [Hv Hl].
   unfold fails, invocable in *. destruct (vmig v) eqn:E; try discriminate.
   - apply IH. exact Hl.
-  - specialize (IH (d ++ [id]) Hl). destruct (run_migs l (d ++ [id])) as [[inv d'] e].
+  - specialize (IH (put_effect id w) Hl). destruct (run_migs ret l (put_effect id w)) as [[inv w'] e].
     destruct IH as [-> ->]. simpl. auto.
 Qed.
 
-(** With a failing entry: the invoked ones are exactly the non-nil entries up
-    to and including the first failing one; nothing after it runs. *)
-Lemma run_migs_fail l1 v l2 d :
+(** With a failing entry, when its error is returned: the invoked ones are
+    exactly the non-nil entries up to and including the first failing one;
+    nothing after it runs. *)
+Lemma run_migs_fail l1 v l2 w :
   existsb fails l1 = false -> fails v = true ->
-  let '(inv, d', e) := run_migs (l1 ++ v :: l2) d in
+  let '(inv, w', e) := run_migs true (l1 ++ v :: l2) w in
   e = Some (num v) /\ inv = map num (filter invocable l1) ++ [num v].
 Proof.
-  revert d. induction l1 as [|w l1 IH]; intros d Hf Hv; simpl.
+  revert w. induction l1 as [|x l1 IH]; intros w Hf Hv; simpl.
   - unfold fails in Hv. destruct (vmig v); try discriminate. auto.
-  - simpl in Hf. apply orb_false_iff in Hf. destruct Hf as [Hw Hl].
-    unfold fails, invocable in *. destruct (vmig w) eqn:E; try discriminate.
+  - simpl in Hf. apply orb_false_iff in Hf. destruct Hf as [Hx Hl].
+    unfold fails, invocable in *. destruct (vmig x) eqn:E; try discriminate.
     + apply IH; assumption.
-    + specialize (IH (d ++ [id]) Hl Hv).
-      destruct (run_migs (l1 ++ v :: l2) (d ++ [id])) as [[inv d'] e].
+    + specialize (IH (put_effect id w) Hl Hv).
+      destruct (run_migs true (l1 ++ v :: l2) (put_effect id w)) as [[inv w'] e].
       destruct IH as [-> ->]. simpl. auto.
+Qed.
+
+(** No write of the migration loop touches the stored version. *)
+Lemma run_migs_stored ret l w :
+  let '(inv, w', e) := run_migs ret l w in stored w' = stored w.
+Proof.
+  revert w. induction l as [|v l IH]; intros w; simpl; [reflexivity|].
+  destruct (vmig v) eqn:E.
+  - apply IH.
+  - specialize (IH (put_effect id w)). destruct (run_migs ret l (put_effect id w)) as [[inv w'] e].
+    exact IH.
+  - destruct ret; [reflexivity|].
+    specialize (IH (put_effect id w)). destruct (run_migs false l (put_effect id w)) as [[inv w'] e].
+    exact IH.
+Qed.
+
+Lemma first_failing l :
+  existsb fails l = true ->
+  exists l1 v l2, l = l1 ++ v :: l2 /\ existsb fails l1 = false /\ fails v = true.
+Proof.
+  induction l as [|w l IH]; [discriminate|]. simpl. intros Ef.
+  destruct (fails w) eqn:Ew.
+  - exists [], w, l. auto.
+  - simpl in Ef. destruct (IH Ef) as (l1 & v & l2 & E & Hl1 & Hv).
+    exists (w :: l1), v, l2. subst l. simpl. rewrite Ew. auto.
 Qed.
 
 Lemma latest_ge vs v : In v vs -> num v <= latest vs.
@@ -157,95 +184,373 @@ Proof.
     + exists w. split; [tauto|]. rewrite E. reflexivity.
 Qed.
 
-(** ** The upgrade as a whole *)
-
-(** (1) Refusal of a newer database: no write, nothing invoked. *)
-Lemma upgrade_reversion vs s :
-  latest vs < stored s -> upgrade vs s = (ErrReversion, s, []).
+Lemma nothing_pending cur vs : latest vs <= cur -> versions_to_apply cur vs = [].
 Proof.
-  intros H. unfold upgrade, upgrade_tx.
-  destruct (N.ltb_spec (latest vs) (stored s)); [reflexivity|lia].
+  intros H. unfold versions_to_apply.
+  assert (filter (fun v => cur <? num v) vs = []) as ->; [|reflexivity].
+  induction vs as [|v vs IH]; [reflexivity|]. simpl in *.
+  destruct (N.ltb_spec cur (num v)); [lia|]. apply IH. lia.
 Qed.
 
-(** (2) Any non-[Ok] outcome leaves the database (version and data) as it was. *)
-Lemma upgrade_error_unchanged vs s o s' inv :
-  upgrade vs s = (o, s', inv) -> o <> Ok -> s' = s.
+(** ** One service, on the working copy ([upgrade(mgr)]) *)
+
+(** Refusal of a newer database: no write, nothing invoked - whatever the
+    error handling around it looks like. *)
+Lemma one_reversion c m w :
+  latest (table m) < stored w -> upgrade_one c m w = (ErrReversion, w, []).
 Proof.
-  unfold upgrade. destruct (upgrade_tx vs s) as [[o0 s0] inv0].
-  destruct o0; intros H Hne; inv H; congruence.
+  intros H. unfold upgrade_one.
+  destruct (N.ltb_spec (latest (table m)) (stored w)); [reflexivity|lia].
 Qed.
 
-(** (3) Success records the latest version (or leaves an up-to-date database
-    untouched). *)
-Lemma upgrade_ok_version vs s s' inv :
-  upgrade vs s = (Ok, s', inv) -> stored s' = latest vs.
+Lemma one_reversion_only c m w w' inv :
+  upgrade_one c m w = (ErrReversion, w', inv) -> latest (table m) < stored w /\ w' = w /\ inv = [].
 Proof.
-  unfold upgrade, upgrade_tx.
-  destruct (N.ltb_spec (latest vs) (stored s)) as [H1|H1]; [discriminate|].
-  destruct (N.ltb_spec (stored s) (latest vs)) as [H2|H2].
-  - destruct (run_migs _ _) as [[inv0 d'] e]. destruct e; [discriminate|].
+  unfold upgrade_one.
+  destruct (N.ltb_spec (latest (table m)) (stored w)) as [H1|H1].
+  - intros H; inv H. auto.
+  - destruct (N.ltb_spec (stored w) (latest (table m))) as [H2|H2]; [|discriminate].
+    destruct (run_migs _ _ _) as [[inv0 w0] e]. destruct e; [discriminate|].
+    destruct (setv_fails m); [destruct (setv_error_returned c)|]; discriminate.
+Qed.
+
+(** Success records the latest version (or leaves an up-to-date database
+    untouched) - provided a failing SetVersion is reported. *)
+Lemma one_ok_version c m w w' inv :
+  setv_error_returned c = true ->
+  upgrade_one c m w = (Ok, w', inv) -> stored w' = latest (table m).
+Proof.
+  intros Hs. unfold upgrade_one.
+  destruct (N.ltb_spec (latest (table m)) (stored w)) as [H1|H1]; [discriminate|].
+  destruct (N.ltb_spec (stored w) (latest (table m))) as [H2|H2].
+  - destruct (run_migs _ _ _) as [[inv0 w0] e]. destruct e; [discriminate|].
+    rewrite Hs. destruct (setv_fails m); [discriminate|].
     intros H; inv H. reflexivity.
   - intros H; inv H. lia.
 Qed.
 
-(** (4) What runs: on success every pending non-nil migration, on failure the
+(** What runs: on success every pending non-nil migration, on failure the
     pending non-nil ones up to the first failing one - as sub-lists of the
-    sorted pending list. *)
-Lemma upgrade_ok_invoked vs s s' inv :
-  upgrade vs s = (Ok, s', inv) ->
-  inv = map num (filter invocable (versions_to_apply (stored s) vs)).
+    sorted pending list.  Both need the migration's error to be returned. *)
+Lemma one_ok_invoked c m w w' inv :
+  mig_error_returned c = true ->
+  upgrade_one c m w = (Ok, w', inv) ->
+  existsb fails (versions_to_apply (stored w) (table m)) = false /\
+  inv = map num (filter invocable (versions_to_apply (stored w) (table m))).
 Proof.
-  unfold upgrade, upgrade_tx.
-  destruct (N.ltb_spec (latest vs) (stored s)) as [H1|H1]; [discriminate|].
-  destruct (N.ltb_spec (stored s) (latest vs)) as [H2|H2].
-  - destruct (existsb fails (versions_to_apply (stored s) vs)) eqn:Ef.
-    + (* a failing entry exists: outcome cannot be Ok *)
-      assert (exists l1 v l2, versions_to_apply (stored s) vs = l1 ++ v :: l2
-                /\ existsb fails l1 = false /\ fails v = true) as (l1 & v & l2 & E & Hl1 & Hv).
-      { clear -Ef. induction (versions_to_apply (stored s) vs) as [|w l IH]; [discriminate|].
-        simpl in Ef. destruct (fails w) eqn:Ew.
-        - exists [], w, l. auto.
-        - simpl in Ef. destruct (IH Ef) as (l1 & v & l2 & E & Hl1 & Hv).
-          exists (w :: l1), v, l2. subst l. simpl. rewrite Ew. auto. }
-      pose proof (run_migs_fail l1 v l2 (data s) Hl1 Hv) as Hr.
-      rewrite <- E in Hr.
-      destruct (run_migs (versions_to_apply (stored s) vs) (data s)) as [[inv0 d'] e].
+  intros Hm. unfold upgrade_one. rewrite Hm.
+  destruct (N.ltb_spec (latest (table m)) (stored w)) as [H1|H1]; [discriminate|].
+  destruct (N.ltb_spec (stored w) (latest (table m))) as [H2|H2].
+  - destruct (existsb fails (versions_to_apply (stored w) (table m))) eqn:Ef.
+    + destruct (first_failing _ Ef) as (l1 & v & l2 & E & Hl1 & Hv).
+      pose proof (run_migs_fail l1 v l2 w Hl1 Hv) as Hr. rewrite <- E in Hr.
+      destruct (run_migs true _ w) as [[inv0 w0] e].
       destruct Hr as [-> _]. intros H; discriminate H.
-    + pose proof (run_migs_ok _ (data s) Ef) as Hr.
-      destruct (run_migs (versions_to_apply (stored s) vs) (data s)) as [[inv0 d'] e].
-      destruct Hr as [-> ->]. intros H; injection H as _ <-. reflexivity.
-  - intros H; injection H as _ <-.
-    assert (versions_to_apply (stored s) vs = []) as ->; [|reflexivity].
-    unfold versions_to_apply.
-    assert (filter (fun v => stored s <? num v) vs = []) as ->; [|reflexivity].
-    clear H1. induction vs as [|v vs IH]; [reflexivity|]. simpl in *.
-    destruct (N.ltb_spec (stored s) (num v)); [lia|]. apply IH. lia.
+    + pose proof (run_migs_ok true _ w Ef) as Hr.
+      destruct (run_migs true _ w) as [[inv0 w0] e].
+      destruct Hr as [-> ->].
+      destruct (setv_fails m); [destruct (setv_error_returned c)|];
+        intros H; inv H; auto.
+  - intros H; inv H. rewrite nothing_pending by lia. auto.
 Qed.
 
-Lemma upgrade_fail_invoked vs s n s' inv :
-  upgrade vs s = (ErrMigration n, s', inv) ->
+Lemma one_fail_invoked c m w n w' inv :
+  mig_error_returned c = true ->
+  upgrade_one c m w = (ErrMigration n, w', inv) ->
   exists l1 v l2,
-    versions_to_apply (stored s) vs = l1 ++ v :: l2 /\
+    versions_to_apply (stored w) (table m) = l1 ++ v :: l2 /\
     existsb fails l1 = false /\ fails v = true /\ num v = n /\
     inv = map num (filter invocable l1) ++ [n].
 Proof.
-  unfold upgrade, upgrade_tx.
-  destruct (N.ltb_spec (latest vs) (stored s)) as [H1|H1]; [discriminate|].
-  destruct (N.ltb_spec (stored s) (latest vs)) as [H2|H2]; [|discriminate].
-  destruct (existsb fails (versions_to_apply (stored s) vs)) eqn:Ef.
-  - assert (exists l1 v l2, versions_to_apply (stored s) vs = l1 ++ v :: l2
-              /\ existsb fails l1 = false /\ fails v = true) as (l1 & v & l2 & E & Hl1 & Hv).
-    { clear -Ef. induction (versions_to_apply (stored s) vs) as [|w l IH]; [discriminate|].
-      simpl in Ef. destruct (fails w) eqn:Ew.
-      - exists [], w, l. auto.
-      - simpl in Ef. destruct (IH Ef) as (l1 & v & l2 & E & Hl1 & Hv).
-        exists (w :: l1), v, l2. subst l. simpl. rewrite Ew. auto. }
-    pose proof (run_migs_fail l1 v l2 (data s) Hl1 Hv) as Hr.
-    rewrite <- E in Hr.
-    destruct (run_migs (versions_to_apply (stored s) vs) (data s)) as [[inv0 d'] e].
+  intros Hm. unfold upgrade_one. rewrite Hm.
+  destruct (N.ltb_spec (latest (table m)) (stored w)) as [H1|H1]; [discriminate|].
+  destruct (N.ltb_spec (stored w) (latest (table m))) as [H2|H2]; [|discriminate].
+  destruct (existsb fails (versions_to_apply (stored w) (table m))) eqn:Ef.
+  - destruct (first_failing _ Ef) as (l1 & v & l2 & E & Hl1 & Hv).
+    pose proof (run_migs_fail l1 v l2 w Hl1 Hv) as Hr. rewrite <- E in Hr.
+    destruct (run_migs true _ w) as [[inv0 w0] e].
     destruct Hr as [-> ->]. intros H; inv H.
     exists l1, v, l2. auto.
-  - pose proof (run_migs_ok _ (data s) Ef) as Hr.
-    destruct (run_migs (versions_to_apply (stored s) vs) (data s)) as [[inv0 d'] e].
-    destruct Hr as [-> _]. intros H; discriminate H.
+  - pose proof (run_migs_ok true _ w Ef) as Hr.
+    destruct (run_migs true _ w) as [[inv0 w0] e].
+    destruct Hr as [-> _].
+    destruct (setv_fails m); [destruct (setv_error_returned c)|]; intros H; discriminate H.
 Qed.
+
+(** A pending migration that fails is reported: the result is not [Ok]. *)
+Lemma one_failing_not_ok c m w :
+  mig_error_returned c = true ->
+  stored w <= latest (table m) ->
+  existsb fails (versions_to_apply (stored w) (table m)) = true ->
+  fst (fst (upgrade_one c m w)) <> Ok.
+Proof.
+  intros Hm Hle Ef E.
+  destruct (upgrade_one c m w) as [[o w'] inv] eqn:Hu. simpl in E. subst o.
+  destruct (one_ok_invoked c m w w' inv Hm Hu) as [Hnf _]. congruence.
+Qed.
+
+(** The working copy of a failed upgrade still carries the old version (the
+    writes of the migrations that ran are in it, though). *)
+Lemma one_error_stored c m w o w' inv :
+  upgrade_one c m w = (o, w', inv) -> o <> Ok -> stored w' = stored w.
+Proof.
+  unfold upgrade_one.
+  destruct (N.ltb_spec (latest (table m)) (stored w)) as [H1|H1]; [intros H; inv H; reflexivity|].
+  destruct (N.ltb_spec (stored w) (latest (table m))) as [H2|H2]; [|intros H; inv H; reflexivity].
+  pose proof (run_migs_stored (mig_error_returned c) (versions_to_apply (stored w) (table m)) w) as Hs.
+  destruct (run_migs _ _ _) as [[inv0 w0] e]. destruct e.
+  - intros H; inv H. auto.
+  - destruct (setv_fails m); [destruct (setv_error_returned c)|]; intros H Hne; inv H; congruence.
+Qed.
+
+(** ** Several services ([Upgrade(mgrs...)]) on the working copies *)
+
+Definition res_of (c : code) (p : mgr * db) := upgrade_one c (fst p) (snd p).
+
+(** When every manager's error is returned, an [Ok] result means that every
+    service's own upgrade returned [Ok], and working copies / invoked lists
+    are theirs. *)
+Lemma all_ok_each c l ws invs :
+  mgr_error_returned c = true ->
+  upgrade_all c l = (Ok, ws, invs) ->
+  Forall (fun p => fst (fst (res_of c p)) = Ok) l /\
+  ws = map (fun p => snd (fst (res_of c p))) l /\
+  invs = map (fun p => snd (res_of c p)) l.
+Proof.
+  intros Hr. revert ws invs. induction l as [|[m w] l IH]; intros ws invs; simpl.
+  - intros H; inv H. auto.
+  - simpl. rewrite Hr.
+    destruct (upgrade_one c m w) as [[o w'] inv] eqn:Hu.
+    destruct o; simpl; try discriminate.
+    destruct (upgrade_all c l) as [[o' ws'] invs'] eqn:Ha.
+    intros H; inv H. destruct (IH ws' invs' eq_refl) as (Hf & -> & ->).
+    assert (res_of c (m, w) = (Ok, w', inv)) as Er by exact Hu.
+    simpl. rewrite Er. simpl. split; [|split; reflexivity].
+    constructor; [rewrite Er; reflexivity|exact Hf].
+Qed.
+
+(** A service whose stored version is newer than its table makes the whole
+    call fail. *)
+Lemma all_newer_not_ok c l :
+  mgr_error_returned c = true ->
+  Exists (fun p => latest (table (fst p)) < stored (snd p)) l ->
+  fst (fst (upgrade_all c l)) <> Ok.
+Proof.
+  intros Hr. induction l as [|[m w] l IH]; intros Hex; [inv Hex|]. simpl. rewrite Hr.
+  destruct (upgrade_one c m w) as [[o w'] inv] eqn:Hu.
+  simpl. rewrite orb_false_r.
+  destruct (is_ok o) eqn:Eo.
+  - destruct o; try discriminate. inv Hex.
+    + simpl in *. rewrite one_reversion in Hu by assumption. discriminate.
+    + specialize (IH H0). destruct (upgrade_all c l) as [[o' ws] invs]. exact IH.
+  - simpl. intros ->. discriminate.
+Qed.
+
+(** A pending migration of some service that fails makes the whole call fail. *)
+Lemma all_failing_not_ok c l :
+  mgr_error_returned c = true -> mig_error_returned c = true ->
+  Forall (fun p => stored (snd p) <= latest (table (fst p))) l ->
+  Exists (fun p => existsb fails (versions_to_apply (stored (snd p)) (table (fst p))) = true) l ->
+  fst (fst (upgrade_all c l)) <> Ok.
+Proof.
+  intros Hr Hm Hle Hex E.
+  destruct (upgrade_all c l) as [[o ws] invs] eqn:Ha. simpl in E. subst o.
+  destruct (all_ok_each c l ws invs Hr Ha) as (Hf & _ & _).
+  rewrite Exists_exists in Hex. destruct Hex as (p & Hin & Hp).
+  rewrite Forall_forall in Hf, Hle.
+  apply (one_failing_not_ok c (fst p) (snd p) Hm (Hle p Hin) Hp). exact (Hf p Hin).
+Qed.
+
+(** ** The enclosing transaction *)
+
+(** ONE Update around the call whose closure returns the error: any non-[Ok]
+    result leaves the committed state of every service as it was.  This is the
+    only place where the writes of a failed upgrade are undone, and it needs
+    both facts about the call site. *)
+Lemma open_atomic c ms ss o ss' invs :
+  one_update c = true -> update_gets_error c = true ->
+  open_upgrade c ms ss = (o, ss', invs) -> o <> Ok -> ss' = ss.
+Proof.
+  intros H1 Hg. unfold open_upgrade, call_in_update. rewrite H1, Hg.
+  destruct (upgrade_all c (combine ms ss)) as [[o0 ws] invs0].
+  intros H Hne; inv H. destruct o; simpl; congruence.
+Qed.
+
+Lemma open_newer_refused c ms ss o ss' invs :
+  one_update c = true -> update_gets_error c = true -> mgr_error_returned c = true ->
+  Exists (fun p => latest (table (fst p)) < stored (snd p)) (combine ms ss) ->
+  open_upgrade c ms ss = (o, ss', invs) -> o <> Ok /\ ss' = ss.
+Proof.
+  intros H1 Hg Hr Hex H.
+  assert (o <> Ok) as Hne.
+  { pose proof (all_newer_not_ok c _ Hr Hex) as Hn.
+    unfold open_upgrade, call_in_update in H. rewrite H1 in H.
+    destruct (upgrade_all c (combine ms ss)) as [[o0 ws] invs0]. inv H. exact Hn. }
+  split; [exact Hne|]. exact (open_atomic c ms ss o ss' invs H1 Hg H Hne).
+Qed.
+
+Lemma open_failing_unchanged c ms ss o ss' invs :
+  one_update c = true -> update_gets_error c = true ->
+  mgr_error_returned c = true -> mig_error_returned c = true ->
+  Forall (fun p => stored (snd p) <= latest (table (fst p))) (combine ms ss) ->
+  Exists (fun p => existsb fails (versions_to_apply (stored (snd p)) (table (fst p))) = true)
+         (combine ms ss) ->
+  open_upgrade c ms ss = (o, ss', invs) -> o <> Ok /\ ss' = ss.
+Proof.
+  intros H1 Hg Hr Hm Hle Hex H.
+  assert (o <> Ok) as Hne.
+  { pose proof (all_failing_not_ok c _ Hr Hm Hle Hex) as Hn.
+    unfold open_upgrade, call_in_update in H. rewrite H1 in H.
+    destruct (upgrade_all c (combine ms ss)) as [[o0 ws] invs0]. inv H. exact Hn. }
+  split; [exact Hne|]. exact (open_atomic c ms ss o ss' invs H1 Hg H Hne).
+Qed.
+
+(** Success of the whole call: every service's own upgrade succeeded and the
+    committed state is the working copy of each. *)
+Lemma open_ok_each c ms ss ss' invs :
+  one_update c = true -> mgr_error_returned c = true ->
+  open_upgrade c ms ss = (Ok, ss', invs) ->
+  Forall (fun p => fst (fst (res_of c p)) = Ok) (combine ms ss) /\
+  ss' = map (fun p => snd (fst (res_of c p))) (combine ms ss) /\
+  invs = map (fun p => snd (res_of c p)) (combine ms ss).
+Proof.
+  intros H1 Hr. unfold open_upgrade, call_in_update. rewrite H1.
+  destruct (upgrade_all c (combine ms ss)) as [[o0 ws] invs0] eqn:Ha.
+  intros H; inv H. simpl. exact (all_ok_each c _ ws invs Hr Ha).
+Qed.
+
+(** ** One service inside its transaction *)
+
+Lemma upgrade_unfold c m s :
+  one_update c = true -> mgr_error_returned c = true ->
+  upgrade c m s =
+  let '(o, w, inv) := upgrade_one c m s in
+  (o, if is_ok o || negb (update_gets_error c) then w else s, inv).
+Proof.
+  intros H1 Hr. unfold upgrade, open_upgrade, call_in_update. rewrite H1. simpl.
+  rewrite Hr.
+  destruct (upgrade_one c m s) as [[o w] inv].
+  destruct o; simpl; destruct (update_gets_error c); reflexivity.
+Qed.
+
+(** (1) Refusal of a newer database: no write, nothing invoked. *)
+Lemma upgrade_reversion c m s :
+  one_update c = true -> mgr_error_returned c = true ->
+  latest (table m) < stored s -> upgrade c m s = (ErrReversion, s, []).
+Proof.
+  intros H1 Hr H. rewrite upgrade_unfold by assumption. rewrite one_reversion by assumption.
+  simpl. destruct (update_gets_error c); reflexivity.
+Qed.
+
+(** (2) Any non-[Ok] outcome leaves the database (version and data) as it was. *)
+Lemma upgrade_error_unchanged c m s o s' inv :
+  one_update c = true -> mgr_error_returned c = true -> update_gets_error c = true ->
+  upgrade c m s = (o, s', inv) -> o <> Ok -> s' = s.
+Proof.
+  intros H1 Hr Hg. rewrite upgrade_unfold by assumption. rewrite Hg.
+  destruct (upgrade_one c m s) as [[o0 w] inv0].
+  intros H Hne; inv H. destruct o; simpl; congruence.
+Qed.
+
+(** (3) Success records the latest version. *)
+Lemma upgrade_ok_version c m s s' inv :
+  one_update c = true -> mgr_error_returned c = true -> setv_error_returned c = true ->
+  upgrade c m s = (Ok, s', inv) -> stored s' = latest (table m).
+Proof.
+  intros H1 Hr Hs. rewrite upgrade_unfold by assumption.
+  destruct (upgrade_one c m s) as [[o0 w] inv0] eqn:Hu.
+  intros H; inv H. simpl. exact (one_ok_version c m s _ _ Hs Hu).
+Qed.
+
+(** (4) What runs. *)
+Lemma upgrade_ok_invoked c m s s' inv :
+  one_update c = true -> mgr_error_returned c = true -> mig_error_returned c = true ->
+  upgrade c m s = (Ok, s', inv) ->
+  inv = map num (filter invocable (versions_to_apply (stored s) (table m))).
+Proof.
+  intros H1 Hr Hm. rewrite upgrade_unfold by assumption.
+  destruct (upgrade_one c m s) as [[o0 w] inv0] eqn:Hu.
+  intros H; inv H. exact (proj2 (one_ok_invoked c m s _ _ Hm Hu)).
+Qed.
+
+Lemma upgrade_fail_invoked c m s n s' inv :
+  one_update c = true -> mgr_error_returned c = true -> mig_error_returned c = true ->
+  upgrade c m s = (ErrMigration n, s', inv) ->
+  exists l1 v l2,
+    versions_to_apply (stored s) (table m) = l1 ++ v :: l2 /\
+    existsb fails l1 = false /\ fails v = true /\ num v = n /\
+    inv = map num (filter invocable l1) ++ [n].
+Proof.
+  intros H1 Hr Hm. rewrite upgrade_unfold by assumption.
+  destruct (upgrade_one c m s) as [[o0 w] inv0] eqn:Hu.
+  intros H; inv H. exact (one_fail_invoked c m s n _ _ Hm Hu).
+Qed.
+
+(** A failing pending migration is never reported as success. *)
+Lemma upgrade_failing_not_ok c m s o s' inv :
+  one_update c = true -> mgr_error_returned c = true -> mig_error_returned c = true ->
+  stored s <= latest (table m) ->
+  existsb fails (versions_to_apply (stored s) (table m)) = true ->
+  upgrade c m s = (o, s', inv) -> o <> Ok.
+Proof.
+  intros H1 Hr Hm Hle Ef. rewrite upgrade_unfold by assumption.
+  pose proof (one_failing_not_ok c m s Hm Hle Ef) as Hn.
+  destruct (upgrade_one c m s) as [[o0 w] inv0]. intros H; inv H. exact Hn.
+Qed.
+
+(** ** The premises are needed
+
+    Each of the facts, when false, admits a history in which the property
+    fails (the model's other branch, evaluated). *)
+
+Definition all_true : code :=
+  {| mig_error_returned := true; setv_error_returned := true; mgr_error_returned := true;
+     one_update := true; update_gets_error := true |}.
+
+Definition three : list version :=
+  [ {| num := 1; vmig := MOk 10 |}; {| num := 2; vmig := MOk 20 |}; {| num := 3; vmig := MFail 30 |} ].
+
+(** (a) false - a transaction per version: migration 3 of 3 fails, versions 1
+    and 2 stay applied and recorded. *)
+Lemma needs_one_update :
+  let c := {| mig_error_returned := true; setv_error_returned := true; mgr_error_returned := true;
+              one_update := false; update_gets_error := true |} in
+  upgrade c (plain three) {| stored := 0; data := [] |}
+  = (ErrMigration 3, {| stored := 2; data := [10; 20] |}, [1; 2; 3]).
+Proof. vm_compute. reflexivity. Qed.
+
+(** (b) false at the call site - the closure hides the error from Update:
+    the writes of migrations 1, 2 and the partial write of 3 are committed. *)
+Lemma needs_error_to_update :
+  let c := {| mig_error_returned := true; setv_error_returned := true; mgr_error_returned := true;
+              one_update := true; update_gets_error := false |} in
+  upgrade c (plain three) {| stored := 0; data := [] |}
+  = (ErrMigration 3, {| stored := 0; data := [10; 20; 30] |}, [1; 2; 3]).
+Proof. vm_compute. reflexivity. Qed.
+
+(** (b) false in [upgrade] - a migration's error is dropped: the failed
+    migration counts as applied and the latest version is recorded. *)
+Lemma needs_migration_error :
+  let c := {| mig_error_returned := false; setv_error_returned := true; mgr_error_returned := true;
+              one_update := true; update_gets_error := true |} in
+  upgrade c (plain ({| num := 4; vmig := MOk 40 |} :: three)) {| stored := 0; data := [] |}
+  = (Ok, {| stored := 4; data := [10; 20; 30; 40] |}, [1; 2; 3; 4]).
+Proof. vm_compute. reflexivity. Qed.
+
+(** (b) false in [Upgrade] - a service's error is dropped: the second service
+    is upgraded and committed although the first one failed. *)
+Lemma needs_manager_error :
+  let c := {| mig_error_returned := true; setv_error_returned := true; mgr_error_returned := false;
+              one_update := true; update_gets_error := true |} in
+  open_upgrade c [plain three; plain [ {| num := 1; vmig := MOk 11 |} ]]
+               [ {| stored := 0; data := [] |}; {| stored := 0; data := [] |} ]
+  = (Ok, [ {| stored := 0; data := [10; 20; 30] |}; {| stored := 1; data := [11] |} ], [[1; 2; 3]; [1]]).
+Proof. vm_compute. reflexivity. Qed.
+
+(** SetVersion's error dropped: success is reported without the version. *)
+Lemma needs_setversion_error :
+  let c := {| mig_error_returned := true; setv_error_returned := false; mgr_error_returned := true;
+              one_update := true; update_gets_error := true |} in
+  upgrade c {| table := [ {| num := 1; vmig := MOk 10 |} ]; setv_fails := true |} {| stored := 0; data := [] |}
+  = (Ok, {| stored := 0; data := [10] |}, [1]).
+Proof. vm_compute. reflexivity. Qed.
